@@ -79,6 +79,7 @@ func checkC01(c *Ctx) {
 	// ---- C01-STOP: stopping the parked parser coroutine resumes it; it still calls p.yield while it unwinds
 	c.checkParserStopOrder("C01-STOP")
 	c.checkLexerTokenOrder("C01-ORDER")
+	c.checkIteratorStopsYielding("C01-ITER")
 
 	// ---- C01-CYCLE: printing and Show terminate on cyclic scope graphs because the Seen set is threaded
 	c.checkSeenThreaded()
